@@ -77,6 +77,7 @@ class Path:
         self.end = None  # 'return' | 'panic' | 'diverge' | 'limit'
         self.blocks = []
         self.mstate = {}
+        self.env = {}
 
 
 class Interp:
@@ -411,7 +412,7 @@ class Interp:
     variant_index = None
 
     def run(self):
-        env0 = {}
+        env0 = dict(getattr(self, "extra_env", {}) or {})
         for i, a in enumerate(self.args):
             env0[i + 1] = a
         stack = [(0, env0, Path(), {}, dict(self.init_state))]
@@ -442,6 +443,7 @@ class Interp:
                     continue
                 if k == "return":
                     path.ret = env.get(0, TOP)
+                    path.env = env
                     path.end = "return"
                     self.paths.append(path)
                     break
